@@ -98,6 +98,15 @@ def emit_all(emit) -> None:
         "the simple validators: name, parameters, body as prefix tokens (`_validate_count` evaluates a string: its condition is in the call)",
     )
 
+    # Chop.invert: the statements in order (tuple swap, `if self.x is not None: self.y = 1 / self.z`, if/elif on a string field)
+    idef = ast.parse(textwrap.dedent(inspect.getsource(Chop.invert))).body[0]
+    emit(
+        "c03InvertBody",
+        "List String",
+        _translate_method(idef),
+        "Chop.invert: its statements in order as prefix tokens (grammar: lean/CBV/Model/C03Trans.lean, `IStmt.enc`)",
+    )
+
 
 class TranslateError(Exception):
     pass
@@ -262,3 +271,68 @@ class _Translator:
         if not allow_none and not (stmts and isinstance(stmts[-1], ast.Return)):
             raise TranslateError(f"{self.where}: the body does not end with a return")
         return out
+
+
+def _translate_method(fdef):
+    """Statements of a method that only moves attributes of `self` around (Chop.invert)."""
+    import ast
+
+    def fail(node, why):
+        raise TranslateError(f"{fdef.name}: line {getattr(node, 'lineno', '?')}: {why}: {ast.unparse(node)[:120]}")
+
+    def attr(e):
+        if isinstance(e, ast.Attribute) and isinstance(e.value, ast.Name) and e.value.id == "self":
+            return e.attr
+        fail(e, "not an attribute of self")
+
+    if [a.arg for a in fdef.args.args] != ["self"]:
+        fail(fdef, "unexpected parameters")
+    stmts = list(fdef.body)
+    if stmts and isinstance(stmts[0], ast.Expr) and isinstance(stmts[0].value, ast.Constant) and isinstance(stmts[0].value.value, str):
+        stmts = stmts[1:]
+    out = []
+    for s in stmts:
+        if (isinstance(s, ast.Assign) and len(s.targets) == 1 and isinstance(s.targets[0], ast.Tuple)
+                and isinstance(s.value, ast.Tuple) and len(s.targets[0].elts) == 2 and len(s.value.elts) == 2):
+            out += ["assign2"] + [attr(x) for x in s.targets[0].elts] + [attr(x) for x in s.value.elts]
+            continue
+        if isinstance(s, ast.If):
+            t = s.test
+            if (isinstance(t, ast.Compare) and len(t.ops) == 1 and isinstance(t.ops[0], ast.IsNot)
+                    and isinstance(t.comparators[0], ast.Constant) and t.comparators[0].value is None
+                    and not s.orelse and len(s.body) == 1 and isinstance(s.body[0], ast.Assign)
+                    and len(s.body[0].targets) == 1):
+                v = s.body[0].value
+                if (isinstance(v, ast.BinOp) and isinstance(v.op, ast.Div) and isinstance(v.left, ast.Constant)
+                        and type(v.left.value) is int and v.left.value == 1):
+                    out += ["ifset", attr(t.left), "recip", attr(s.body[0].targets[0]), attr(v.right)]
+                    continue
+                fail(s, "unsupported assignment under `is not None`")
+            # if / elif chain: self.f == "const" -> self.g = "const"
+            arms = []
+            field = None
+            node = s
+            while True:
+                t = node.test
+                if not (isinstance(t, ast.Compare) and len(t.ops) == 1 and isinstance(t.ops[0], ast.Eq)
+                        and isinstance(t.comparators[0], ast.Constant) and isinstance(t.comparators[0].value, str)
+                        and len(node.body) == 1 and isinstance(node.body[0], ast.Assign) and len(node.body[0].targets) == 1
+                        and isinstance(node.body[0].value, ast.Constant) and isinstance(node.body[0].value.value, str)):
+                    fail(node, "unsupported if statement")
+                f = attr(t.left)
+                if field not in (None, f):
+                    fail(node, "if/elif chain tests different fields")
+                field = f
+                arms += [t.comparators[0].value, attr(node.body[0].targets[0]), node.body[0].value.value]
+                if not node.orelse:
+                    break
+                if len(node.orelse) == 1 and isinstance(node.orelse[0], ast.If):
+                    node = node.orelse[0]
+                    continue
+                fail(node, "unsupported else branch")
+            if len(arms) // 3 > 9:
+                fail(s, "too many arms")
+            out += ["case", field, str(len(arms) // 3)] + arms
+            continue
+        fail(s, "unsupported statement")
+    return out
